@@ -39,6 +39,9 @@ pub enum Case {
     /// points = centre + sum_k coords[i][k] * stretch[k] * axis_k (axes from a pose); rank = number of non-zero stretches
     Svd3 { coords: Vec<P3>, stretch: P3, pose: Iso3D, offset: P3, weights: Weights, scale_w: f64, t: Iso3D, #[serde(default = "one")] unit: F },
     Svd2 { coords: Vec<P2>, stretch: P2, pose: Iso2D, offset: P2, weights: Weights, scale_w: f64, t: Iso2D, #[serde(default = "one")] unit: F },
+    /// integer point sets that are exactly symmetric under exchanging two coordinates about their (integer) centre:
+    /// each seed (a,b,c) contributes (a,b,c), (b,a,c) and their negatives, all shifted by the offset
+    SvdSym { dim3: bool, seeds: Vec<(i8, i8, i8)>, offset: (i16, i16, i16), pair: u8, equal_w: Option<f64>, t: Iso3D },
     Frame { which: u8, a: P3, la: f64, angle: f64, roll: f64, lb: f64, origin: Option<P3>, degenerate: u8 },
     Xyo { a: P3, angle: f64, roll: f64, origin: P3 },
     Basis2 { ang: f64, len: f64, origin: P2 },
@@ -70,13 +73,13 @@ impl Property for C19 {
     type Case = Case;
     const ID: &'static str = "C19";
     fn rule() -> &'static str {
-        "families: point sets of D+1..120 points built from a known basis (generic, exactly planar / collinear / coincident by zeroing stretches, anisotropic up to 1e6, offset up to 1e3 from the origin) with no weights, equal weights c in {0.5,1,2,7} or non-uniform positive weights (max/min up to 100), plus a second isometry for equivariance and a weight scale factor; vector pairs of any length 1e-3..1e3 at angles 1e-6..pi-1e-6, exactly parallel, zero, with optional origin, for the six two-vector frame constructors, iso3_from_xyo, iso3_from_basis, iso2_from_basis; planes from point triples in general position (coordinates up to 100, and triangles of size 1e-3..1e3 placed up to 1e7 sizes from the origin), from point+normal and from surface points. Oracle: defining constraints (mean, orthonormality, ordering, variance, diagonalised scatter, round trip, rank, equivariance, weight-scale invariance; proper rotation with the primary axis exact and the secondary in the right half-plane; points on plane, projection, inversion). Non-trivial: basis not axis-aligned and centre away from the origin (SVD), non-trivial weights, frame inputs farther than 5 degrees from perpendicular. Distinct = distinct canonical JSON."
+        "families: point sets of D+1..120 points built from a known basis (generic, exactly planar / collinear / coincident by zeroing stretches, anisotropic up to 1e6, offset up to 1e3 from the origin) with no weights, equal weights c in {0.5,1,2,7} or non-uniform positive weights (max/min up to 100), plus a second isometry for equivariance and a weight scale factor; integer point sets exactly symmetric under exchanging two coordinates about an integer centre (two centred columns with bit-identical sums of squares); vector pairs of any length 1e-3..1e3 at angles 1e-6..pi-1e-6, exactly parallel, zero, with optional origin, for the six two-vector frame constructors, iso3_from_xyo, iso3_from_basis, iso2_from_basis; planes from point triples in general position (coordinates up to 100, and triangles of size 1e-3..1e3 placed up to 1e7 sizes from the origin), from point+normal and from surface points. Oracle: defining constraints (mean, orthonormality, ordering, variance, diagonalised scatter, round trip, rank, equivariance, weight-scale invariance; proper rotation with the primary axis exact and the secondary in the right half-plane; points on plane, projection, inversion). Non-trivial: basis not axis-aligned and centre away from the origin (SVD), non-trivial weights, frame inputs farther than 5 degrees from perpendicular. Distinct = distinct canonical JSON."
     }
     fn cases(t: Tier) -> u32 {
         t.pick(1_600_000, 10_000_000)
     }
     fn expected_labels() -> Vec<&'static str> {
-        vec!["svd3", "svd2", "weights_none", "weights_equal", "weights_nonuniform", "rank_deficient", "frame_xy", "frame_xz", "frame_yz", "frame_yx", "frame_zx", "frame_zy", "frame_degenerate", "xyo", "basis2", "plane_triple", "plane_normal", "plane_far", "plane_far_1e4_sizes_away", "equivariance_checked"]
+        vec!["svd3", "svd2", "weights_none", "weights_equal", "weights_nonuniform", "svd_symmetric_lattice", "rank_deficient", "frame_xy", "frame_xz", "frame_yz", "frame_yx", "frame_zx", "frame_zy", "frame_degenerate", "xyo", "basis2", "plane_triple", "plane_normal", "plane_far", "plane_far_1e4_sizes_away", "equivariance_checked"]
     }
     fn strategy(_t: Tier) -> BoxedStrategy<Case> {
         let stretch3 = prop_oneof![4 => (logu(-1.0, 1.0), logu(-1.0, 1.0), logu(-1.0, 1.0)).prop_map(|(a, b, c)| [a, b, c]), 1 => (logu(-3.0, 3.0), logu(-3.0, 3.0), logu(-3.0, 3.0)).prop_map(|(a, b, c)| [a, b, c]), 2 => (logu(-1.0, 1.0), logu(-1.0, 1.0), prop::sample::select(vec![0u8, 1, 2, 3])).prop_map(|(a, b, z)| match z { 0 => [a, b, 0.0], 1 => [a, 0.0, 0.0], 2 => [0.0, 0.0, 0.0], _ => [0.0, b, a] })];
@@ -85,7 +88,10 @@ impl Property for C19 {
         let svd2 = (3usize..120).prop_flat_map(move |n| (prop::collection::vec(p2(1.0), n), stretch2.clone(), iso2(0.0), p2(1000.0), weights(n), logu(-1.0, 1.0), iso2(100.0), unit())).prop_map(|(coords, stretch, pose, offset, weights, scale_w, t, unit)| Case::Svd2 { coords, stretch, pose, offset, weights, scale_w, t, unit });
         let frame = (0u8..6, unit3(), logu(-3.0, 3.0), prop_oneof![4 => unif(0.05, 3.09), 1 => logu(-6.0, -1.0), 1 => logu(-6.0, -1.0).prop_map(|x| std::f64::consts::PI - x)], unif(0.0, 6.2832), logu(-3.0, 3.0), prop::option::of(p3(1000.0)), prop_oneof![8 => Just(0u8), 1 => Just(1u8), 1 => Just(2u8), 1 => Just(3u8)])
             .prop_map(|(which, a, la, angle, roll, lb, origin, degenerate)| Case::Frame { which, a, la, angle, roll, lb, origin, degenerate });
+        let svdsym = (any::<bool>(), prop::collection::vec((-9i8..=9, -9i8..=9, -9i8..=9), 1..6), (-300i16..=300, -300i16..=300, -300i16..=300), 0u8..3, prop::option::of(prop::sample::select(vec![0.5, 1.0, 2.0, 7.0])), iso3(100.0))
+            .prop_map(|(dim3, seeds, offset, pair, equal_w, t)| Case::SvdSym { dim3, seeds, offset, pair, equal_w, t });
         prop_oneof![
+            1 => svdsym,
             4 => svd3,
             3 => svd2,
             5 => frame,
@@ -130,6 +136,7 @@ impl Property for C19 {
                 cx.label_if(u < 1e-4, "unit_below_1e-4");
                 svd::<2>(cx, &pts, known_rank, weights, *scale_w, &moved, &rot, pose.angle.abs() > 1e-3, u * stretch.iter().cloned().fold(0.0, f64::max))
             }
+            Case::SvdSym { dim3, seeds, offset, pair, equal_w, t } => svd_sym(*dim3, seeds, *offset, *pair, equal_w, t),
             Case::Frame { which, a, la, angle, roll, lb, origin, degenerate } => frame(*which, a, *la, *angle, *roll, *lb, origin, *degenerate),
             Case::Xyo { a, angle, roll, origin } => xyo(a, *angle, *roll, origin),
             Case::Basis2 { ang, len, origin } => basis2(*ang, *len, origin),
@@ -154,6 +161,63 @@ fn axis_err<const D: usize>(a: &SVector<f64, D>, b: &SVector<f64, D>) -> f64 {
 }
 
 #[allow(clippy::too_many_arguments)]
+/// Exactly symmetric integer sets: two coordinate columns have bit-identical sums of squares and are correlated.
+fn svd_sym(dim3: bool, seeds: &[(i8, i8, i8)], offset: (i16, i16, i16), pair: u8, equal_w: &Option<f64>, t: &Iso3D) -> Verdict {
+    let mut cx = Ctx::new();
+    cx.label("svd_symmetric_lattice");
+    let weights = match equal_w {
+        Some(c) => Weights::Equal(*c),
+        None => Weights::None,
+    };
+    let (i, j) = if dim3 { [(0, 1), (0, 2), (1, 2)][pair as usize % 3] } else { (0, 1) };
+    let mut raw: Vec<[f64; 3]> = vec![];
+    for s in seeds {
+        let v = [s.0 as f64, s.1 as f64, if dim3 { s.2 as f64 } else { 0.0 }];
+        let mut w = v;
+        w.swap(i, j);
+        for q in [v, w] {
+            raw.push(q);
+            raw.push([-q[0], -q[1], -q[2]]);
+        }
+    }
+    let off = [offset.0 as f64, offset.1 as f64, if dim3 { offset.2 as f64 } else { 0.0 }];
+    let ext = raw.iter().fold(0.0f64, |m, q| m.max(q[0].abs()).max(q[1].abs()).max(q[2].abs()));
+    if ext == 0.0 {
+        return Verdict::Discard("all seeds at the centre");
+    }
+    if dim3 {
+        let pts: Vec<Point<f64, 3>> = raw.iter().map(|q| Point3::new(q[0] + off[0], q[1] + off[1], q[2] + off[2])).collect();
+        // dimension of the set (exact: small integers)
+        let vs: Vec<Vector3> = raw.iter().map(|q| Vector3::new(q[0], q[1], q[2])).collect();
+        let mut rank = 1;
+        'o: for a in &vs {
+            for b in &vs {
+                if a.cross(b).norm() > 0.0 {
+                    rank = 2;
+                    for c in &vs {
+                        if a.cross(b).dot(c) != 0.0 {
+                            rank = 3;
+                            break 'o;
+                        }
+                    }
+                }
+            }
+        }
+        let iso = t.to_iso();
+        let moved: Vec<Point<f64, 3>> = pts.iter().map(|p| iso * p).collect();
+        let rot = |v: &SVector<f64, 3>| iso.rotation * v;
+        svd::<3>(cx, &pts, rank, &weights, 2.0, &moved, &rot, false, ext)
+    } else {
+        let pts: Vec<Point<f64, 2>> = raw.iter().map(|q| engeom::Point2::new(q[0] + off[0], q[1] + off[1])).collect();
+        let rank = if raw.iter().any(|a| raw.iter().any(|b| a[0] * b[1] - a[1] * b[0] != 0.0)) { 2 } else { 1 };
+        let ang = t.angle;
+        let iso = Iso2::new(engeom::Vector2::new(t.t[0], t.t[1]), ang);
+        let moved: Vec<Point<f64, 2>> = pts.iter().map(|p| iso * p).collect();
+        let rot = |v: &SVector<f64, 2>| iso.rotation * v;
+        svd::<2>(cx, &pts, rank, &weights, 2.0, &moved, &rot, false, ext)
+    }
+}
+
 fn svd<const D: usize>(mut cx: Ctx, pts: &[Point<f64, D>], known_rank: usize, weights: &Weights, scale_w: f64, moved: &[Point<f64, D>], rot: &dyn Fn(&SVector<f64, D>) -> SVector<f64, D>, generic_pose: bool, max_stretch: f64) -> Verdict {
     let n = pts.len();
     let w = wvec(weights, n);
